@@ -19,7 +19,7 @@ def is_sublist(a, b):
 
 
 def correspondence(ctx):
-    L = 5 if ctx.thorough else 4
+    L = 6 if ctx.thorough else 4
     rng0 = ctx.rng("c08-lines")
     jobs = []
     for n in range(0, L + 1):
